@@ -4,7 +4,8 @@
 //! function `Overrides::override_keys` on tables produced by the real parser, for every ordered
 //! list of distinct active keys up to length 3 (quick) / 4 (thorough) over the 13-key universe plus
 //! targeted full-combination lists. Observation point 2: the OS stream of a real `Kanata` driven
-//! through `Sim` with `override-release-on-activation` yes/no on random press/release histories.
+//! through `Sim` with `override-release-on-activation` yes/no on random press/release histories and on
+//! systematic follow-up mini-histories (see below).
 //!
 //! Layer mapping dimension (pipeline part): the base layer is a permutation of the 13-key universe, so
 //! a physical key may output a different key code (`defsrc a` / `deflayer b`), and the overrides are
@@ -17,6 +18,22 @@
 //! forwarded as one of that override's outputs; a repeat of a physical key whose output kanata holds
 //! and no override replaces must be forwarded as that key (not dropped, not some unrelated key).
 //! Violations on a physical key that outputs a different code carry the suffix `:remapped-key`.
+//!
+//! End of the combination by the NEXT key event (release-on-activation off): once `override_keys` has
+//! replaced a non-modifier in a tick, the very next press or release that kanata processes - whatever
+//! key it is and however soon it comes, including the tick directly after the activating tick - ends the
+//! combination: kanata no longer holds the overridden key (`override-not-ended-by-next-press/-release`),
+//! so by the per-tick clause the override outputs are released, the held modifiers are back and the new
+//! key reaches the OS with the modifiers that are really held. A tick that consumes no event changes
+//! neither kanata's held keys nor the OS set (`changed-without-input`).
+//! Spacing independence: every pipeline history is run a second time with the same press/release events
+//! 4 ticks apart; what the OS holds at every settled point (and, with release-on-activation off, the whole
+//! sequence of presses/releases sent) must be the same (`held-keys-depend-on-event-spacing`,
+//! `output-sequence-depends-on-event-spacing`).
+//! Follow-up family (4th part): per case one table (160 seed-independent + random), and systematically
+//! every entry x every follow-up event (press of each of the keys outside the combination, release of each
+//! key of the combination: 13 per entry) x spacing {0, 1, 2 ticks behind the key that completes the
+//! combination, whole history without a tick}; every such mini-history goes through all clauses above.
 
 use crate::core::rng::Rng;
 use crate::core::sim::{code_name, osc, render_hist, Ev, OutKind, Sim};
@@ -274,6 +291,23 @@ impl<'a> Real<'a> {
             match self.codes.iter().position(|x| *x == c) {
                 Some(i) => m |= 1 << i,
                 None => m |= 0x8000,
+            }
+        }
+        m
+    }
+}
+
+impl Real<'_> {
+    /// the non-modifiers of `list` that `override_keys` replaces (OverrideStates::removed_oscs after the call)
+    fn replaced_nonmods(&mut self, list: &[usize]) -> Mask {
+        self.run(list);
+        let mut m: Mask = 0;
+        for o in self.st.removed_oscs() {
+            let c = u16::from(o);
+            if let Some(i) = self.codes.iter().position(|x| *x == c) {
+                if !is_mod(i) {
+                    m |= 1 << i;
+                }
             }
         }
         m
@@ -612,31 +646,152 @@ fn pipe_case(ctx: &Ctx, r: u64) -> PipeCase {
     PipeCase { table, map, roa, text, h, family: if targeted { "targeted+random" } else { "random" }, map_kind, pool_len: pool.len() }
 }
 
+/// What a run showed at the OS, for the comparison of differently spaced runs of the same events.
+struct RunObs {
+    /// every non-redundant key press / release the OS saw, in order, without times
+    os_seq: Vec<(bool, String)>,
+    /// (number of press/release input events consumed so far, keys the OS holds) at every settled
+    /// point: a tick that consumed no event while no event was waiting
+    settle: Vec<(usize, BTreeSet<String>)>,
+}
+
+fn collect_os_seq(sim: &Sim, seq: &mut Vec<(bool, String)>) {
+    for o in sim.last() {
+        if o.redundant {
+            continue;
+        }
+        match o.kind {
+            OutKind::Down => seq.push((true, o.name.clone())),
+            OutKind::Up => seq.push((false, o.name.clone())),
+            _ => {}
+        }
+    }
+}
+
+/// report a violation once per signature and case (a follow-up case runs hundreds of mini-histories)
+fn violate_once(out: &mut CaseOut, sig: &str, what: String, witness: impl FnOnce() -> Value) {
+    if out.violations.iter().any(|v| v.sig == sig) {
+        out.inc("violations_repeated_in_same_case_not_listed");
+        return;
+    }
+    out.violate(sig, what, witness());
+}
+
 fn run_pipeline(out: &mut CaseOut, ctx: &Ctx, r: u64) {
     let PipeCase { table, map, roa, text, h, family, map_kind, pool_len } = pipe_case(ctx, r);
+    out.tag(format!("pipe:{family}:roa={roa}:map={map_kind}:entries={}:pool={pool_len}", table.len()));
+    out.inc(&format!("pipeline_histories_{}", family.replace('+', "_")));
+    let Some(obs) = judge_history(out, &table, &map, roa, &text, &h, r % 400 == 1) else { return };
+    // the same press/release events, widely spaced: what the OS ends up holding must not depend on
+    // how close together the events arrived
+    if let Some(reference) = reference_run(&text, &h) {
+        compare_spacing(out, &text, &h, roa, &obs, &reference);
+    }
+}
+
+/// The same press/release events (repeats dropped), 4 ticks apart: every event is consumed and
+/// settled before the next one arrives.
+fn reference_run(text: &str, h: &[Ev]) -> Option<RunObs> {
+    let mut sim = Sim::new(text).ok()?;
+    let mut obs = RunObs { os_seq: vec![], settle: vec![] };
+    let mut n = 0usize;
+    for e in h {
+        if !matches!(e, Ev::P(_) | Ev::R(_)) {
+            continue;
+        }
+        sim.apply(e);
+        for _ in 0..4 {
+            sim.tick();
+            collect_os_seq(&sim, &mut obs.os_seq);
+        }
+        n += 1;
+        obs.settle.push((n, sim.os.keys_down.clone()));
+    }
+    for _ in 0..12 {
+        sim.tick();
+        collect_os_seq(&sim, &mut obs.os_seq);
+    }
+    Some(obs)
+}
+
+fn spaced_text(h: &[Ev]) -> String {
+    let mut v: Vec<Ev> = vec![];
+    for e in h {
+        if matches!(e, Ev::P(_) | Ev::R(_)) {
+            v.push(e.clone());
+            v.push(Ev::T(4));
+        }
+    }
+    v.push(Ev::T(12));
+    render_hist(&v)
+}
+
+fn seq_text(s: &[(bool, String)]) -> Vec<String> {
+    s.iter().map(|(d, n)| format!("{}{}", if *d { "↓" } else { "↑" }, n)).collect()
+}
+
+fn compare_spacing(out: &mut CaseOut, text: &str, h: &[Ev], roa: bool, var: &RunObs, reference: &RunObs) {
+    out.inc("spacing_histories_compared_with_widely_spaced_run");
+    for (n, set) in &var.settle {
+        let Some((_, rset)) = reference.settle.iter().find(|(m, _)| m == n) else { continue };
+        out.inc("spacing_settled_points_compared");
+        if set != rset {
+            violate_once(
+                out,
+                "C13:pipeline:held-keys-depend-on-event-spacing",
+                format!("after the first {n} press/release events were consumed and a tick passed, the OS holds {set:?}; with the same events 4 ticks apart it holds {rset:?}"),
+                || json!({"config": text, "history": render_hist(h), "widely_spaced_history": spaced_text(h), "events_consumed": n, "observed": format!("{set:?}"), "expected": format!("{rset:?}"), "observed_output_sequence": seq_text(&var.os_seq), "widely_spaced_output_sequence": seq_text(&reference.os_seq)}),
+            );
+            return;
+        }
+    }
+    if !roa {
+        out.inc("spacing_output_sequences_compared");
+        if var.os_seq != reference.os_seq {
+            let at = var.os_seq.iter().zip(reference.os_seq.iter()).position(|(a, b)| a != b).unwrap_or(var.os_seq.len().min(reference.os_seq.len()));
+            violate_once(
+                out,
+                "C13:pipeline:output-sequence-depends-on-event-spacing",
+                format!("the sequence of key presses/releases sent to the OS differs from the one for the same events 4 ticks apart (first difference at output #{at})"),
+                || json!({"config": text, "history": render_hist(h), "widely_spaced_history": spaced_text(h), "observed": seq_text(&var.os_seq), "expected": seq_text(&reference.os_seq)}),
+            );
+        }
+    }
+}
+
+/// Runs one history through a fresh real `Kanata` and judges every tick and every repeat.
+fn judge_history(out: &mut CaseOut, table: &[Ovr], map: &Map, roa: bool, text: &str, h: &[Ev], want_sample: bool) -> Option<RunObs> {
+    let table = table.to_vec();
+    let map = *map;
+    let text = text.to_string();
+    let h = h.to_vec();
     let cs = codes();
     let inv = inverse(&map);
     let mut sim = match Sim::new(&text) {
         Ok(s) => s,
         Err(e) => {
-            out.violate("C13:table-rejected", "the parser rejected a valid override configuration", json!({"config": text, "history": render_hist(&h), "observed": e, "expected": "accepted"}));
-            return;
+            violate_once(out, "C13:table-rejected", "the parser rejected a valid override configuration".into(), || json!({"config": text, "history": render_hist(&h), "observed": e, "expected": "accepted"}));
+            return None;
         }
     };
     let ov = sim.k.overrides.clone();
     let Some(mut real) = Real::new(&ov) else {
         out.inconclusive = Some("universe key unknown".into());
-        return;
+        return None;
     };
     out.inc(if roa { "pipeline_histories_release_on_activation_yes" } else { "pipeline_histories_release_on_activation_no" });
-    out.tag(format!("pipe:{family}:roa={roa}:map={map_kind}:entries={}:pool={pool_len}", table.len()));
-    out.inc(&format!("pipeline_histories_{}", family.replace('+', "_")));
     if !is_identity(&map) {
         out.inc("pipeline_histories_with_remapped_keys");
         if table.iter().any(|o| inv[o.in_key] != o.in_key) {
             out.inc("pipeline_histories_override_on_output_of_remapped_key");
         }
     }
+    let mut obs = RunObs { os_seq: vec![], settle: vec![] };
+    let mut n_consumed = 0usize;
+    let mut flagged: Mask = 0; // non-modifiers an active override replaced and kanata still holds (release-on-activation off)
+    let mut since_activation: u32 = u32::MAX; // ticks since the tick in which an override became active
+    let mut prev_km_now: Mask = 0;
+    let mut prev_os: Mask = 0;
     let names: Vec<String> = cs.iter().map(|c| code_name(*c)).collect();
     let idx_of_code = |c: u16| cs.iter().position(|x| *x == c);
     // physical key code -> universe index of the key it outputs
@@ -749,7 +904,7 @@ fn run_pipeline(out: &mut CaseOut, ctx: &Ctx, r: u64) {
                     if !reported_rep {
                         reported_rep = true;
                         let prefix: Vec<Ev> = h[..=ei].to_vec();
-                        out.violate(sig, what, witness(&sim, json!({"physical_key": pk.map(key_name), "outputs_key": i.map(key_name), "observed": outs.iter().map(|o| o.short()).collect::<Vec<_>>(), "expected": format!("a repeat of a key that is down at the OS ({:?}); for the non-modifier of an active override one of {:?}", sim.os.keys_down, mask_names(prev_added)), "replaced_keys": mask_names(prev_removed)}), &prefix, &text));
+                        violate_once(out, &sig, what, || witness(&sim, json!({"physical_key": pk.map(key_name), "outputs_key": i.map(key_name), "observed": outs.iter().map(|o| o.short()).collect::<Vec<_>>(), "expected": format!("a repeat of a key that is down at the OS ({:?}); for the non-modifier of an active override one of {:?}", sim.os.keys_down, mask_names(prev_added)), "replaced_keys": mask_names(prev_removed)}), &prefix, &text));
                     }
                 }
                 0
@@ -763,6 +918,12 @@ fn run_pipeline(out: &mut CaseOut, ctx: &Ctx, r: u64) {
         for _ in 0..nticks {
             let consumed = pending.pop_front();
             sim.tick();
+            collect_os_seq(&sim, &mut obs.os_seq);
+            if matches!(consumed, Some(Ev::P(_)) | Some(Ev::R(_))) {
+                n_consumed += 1;
+            } else if pending.is_empty() && obs.settle.last().map(|(n, _)| *n) != Some(n_consumed) {
+                obs.settle.push((n_consumed, sim.os.keys_down.clone()));
+            }
             if !judged_ok {
                 continue;
             }
@@ -804,6 +965,8 @@ fn run_pipeline(out: &mut CaseOut, ctx: &Ctx, r: u64) {
                     None => foreign = true,
                 }
             }
+            let was_stable = prev_stable;
+            let ticks_since_activation = since_activation; // 1 = this tick directly follows the activating tick
             prev_stable = true;
             if roa {
                 if let Some(Ev::P(c)) = &consumed {
@@ -833,6 +996,7 @@ fn run_pipeline(out: &mut CaseOut, ctx: &Ctx, r: u64) {
                 out.inc("pipeline_ticks_with_active_override");
                 if removed != prev_removed {
                     out.inc("pipeline_activations");
+                    since_activation = 0;
                     if (0..5).any(|k| removed & !prev_removed & (1 << k) != 0 && inv[k] != k) {
                         out.inc("pipeline_activations_by_remapped_key");
                     }
@@ -884,12 +1048,47 @@ fn run_pipeline(out: &mut CaseOut, ctx: &Ctx, r: u64) {
                     dev = Some(("C13:pipeline:held-modifier-lost".into(), "a physically held modifier is no longer held by kanata".into(), json!({"observed": mask_names(km_now), "expected": mask_names(phys)})));
                 } else if phys & 0x1f & !erased & !km_now != 0 {
                     dev = Some(("C13:pipeline:unrelated-key-lost".into(), "a physically held key that was never part of an active override is no longer held by kanata".into(), json!({"observed": mask_names(km_now), "expected": mask_names(phys & !erased)})));
+                } else if consumed.is_some() && flagged != 0 {
+                    // the next key event after an override was active ends the combination: kanata lets
+                    // go of the overridden non-modifier, whatever the event is and however soon it comes
+                    let press = matches!(consumed, Some(Ev::P(_)));
+                    out.inc(if press { "pipeline_next_event_after_override_is_press" } else { "pipeline_next_event_after_override_is_release" });
+                    if ticks_since_activation == 1 {
+                        out.inc("pipeline_next_event_consumed_one_tick_after_activation");
+                    }
+                    let ev_key = match &consumed {
+                        Some(Ev::P(c)) | Some(Ev::R(c)) => out_of_code(*c).map(key_name).unwrap_or("?"),
+                        _ => "?",
+                    };
+                    if km_now & flagged != 0 {
+                        let sig = if press { "C13:pipeline:override-not-ended-by-next-press" } else { "C13:pipeline:override-not-ended-by-next-release" };
+                        dev = Some((sig.into(), format!("{} of {} was processed {} tick(s) after an override replaced {:?}, yet kanata still holds {:?}: the override combination goes on together with the new event (OS holds {:?})", if press { "press" } else { "release" }, ev_key, ticks_since_activation, mask_names(flagged), mask_names(km_now & flagged), mask_names(os)), json!({"observed": mask_names(km_now), "expected": mask_names(km_now & !flagged), "os_holds": mask_names(os), "ticks_since_activation": ticks_since_activation})));
+                    } else {
+                        out.inc(if press { "pipeline_override_ended_by_next_press" } else { "pipeline_override_ended_by_next_release" });
+                    }
+                } else if consumed.is_none() && was_stable && prev_ok && (km_now != prev_km_now || os != prev_os) {
+                    dev = Some(("C13:pipeline:changed-without-input".into(), "a tick that consumed no input event changed the keys kanata holds or the keys the OS holds".into(), json!({"observed": {"kanata": mask_names(km_now), "os": mask_names(os)}, "expected": {"kanata": mask_names(prev_km_now), "os": mask_names(prev_os)}})));
+                } else if consumed.is_none() {
+                    out.inc("pipeline_idle_ticks_unchanged");
                 }
+                // non-modifiers that override_keys really replaces for the keys held in this tick (taken from
+                // the public function on the same list, so an override that the known order deviation
+                // left unapplied marks nothing); only ticks whose OS set is as specified add marks
+                if !roa && removed != 0 {
+                    flagged |= real.replaced_nonmods(&k_list) & removed;
+                }
+            }
+            since_activation = since_activation.saturating_add(1);
+            {
+                let km_now = list_mask(&l.keycodes().filter_map(|kc| idx_of_code(u16::from(OsCode::from(kc)))).collect::<Vec<_>>());
+                flagged &= km_now;
+                prev_km_now = km_now;
+                prev_os = os;
             }
             if let Some((sig, what, extra)) = dev {
                 if !reported || sig != SIG_ORDER {
                     let prefix: Vec<Ev> = h[..=ei].to_vec();
-                    out.violate(sig.clone(), what, witness(&sim, extra, &prefix, &text));
+                    violate_once(out, &sig, what, || witness(&sim, extra, &prefix, &text));
                 }
                 if sig == SIG_ORDER {
                     reported = true;
@@ -904,16 +1103,188 @@ fn run_pipeline(out: &mut CaseOut, ctx: &Ctx, r: u64) {
     }
     // everything is physically released, every queued event was consumed and 12 more ticks have passed
     if !sim.os.all_up() || sim.k.layout.b().keycodes().next().is_some() {
-        out.violate(
+        violate_once(
+            out,
             "C13:pipeline:stuck-at-end",
             format!("after all keys were released the OS still holds {:?}", sim.os.keys_down),
-            json!({"config": text, "history": render_hist(&h), "observed": format!("{:?}", sim.os.keys_down), "expected": "nothing held", "trace": sim.trace_json()}),
+            || json!({"config": text, "history": render_hist(&h), "observed": format!("{:?}", sim.os.keys_down), "expected": "nothing held", "trace": sim.trace_json()}),
         );
     } else {
         out.inc("pipeline_histories_ending_all_up");
     }
-    if r % 400 == 1 {
+    if want_sample {
         out.sample = Some(json!({"part": "pipeline", "config": text, "history": render_hist(&h), "trace": sim.trace_json()}));
+    }
+    Some(obs)
+}
+
+// ------------------------------------------------------------------ follow-up family
+
+/// seed-independent follow-up cases: (output key with an override) x (physical key that outputs it) x
+/// 4 combination shapes x release-on-activation no/yes
+const N_FU_SYS: u64 = 4 * 5 * 4 * 2;
+
+fn n_fu(ctx: &Ctx) -> u64 {
+    N_FU_SYS + ctx.tier.sel(400, 4_000)
+}
+
+struct FuCase {
+    table: Vec<Ovr>,
+    map: Map,
+    roa: bool,
+    text: String,
+    family: &'static str,
+    map_kind: u64,
+}
+
+fn fu_case(ctx: &Ctx, r: u64) -> FuCase {
+    if r < N_FU_SYS {
+        let mut rng = Rng::new(r ^ 0xc13_f0);
+        let q = (r % 4) as usize;
+        let p = ((r / 4) % 5) as usize;
+        let v = (r / 20) % 4;
+        let roa = r / 80 == 1;
+        let (in_mods, out_mods): (u8, u8) = match v {
+            0 => (0b0000_0010, 0b0000_0010), // (lsft q) -> (lsft out)
+            1 => (0, 0),                     // (q) -> (out)
+            2 => (0b0001_0010, 0b0000_0100), // (lsft rctl q) -> (lalt out)
+            _ => (0b0000_0010, 0b0000_0001), // (lsft q) -> (lctl out): the output modifier is not the held one
+        };
+        let mut table = vec![Ovr { in_mods, in_key: q, out_mods, out_key: (q + 1 + v as usize) % 5 }];
+        if p != q && p < 4 {
+            table.push(Ovr { in_mods, in_key: p, out_mods: 0, out_key: (p + 2) % 5 });
+        }
+        let mut map = identity_map();
+        map.swap(p, q);
+        let text = config(&render_table(&table, &mut rng), Some(roa), &map);
+        return FuCase { table, map, roa, text, family: "systematic", map_kind: if p == q { 0 } else { 4 } };
+    }
+    let mut rng = Rng::for_case(ctx.seed, "C13", "followup", r);
+    let table = random_table(&mut rng);
+    let roa = r % 2 == 1;
+    let map_kind = (r / 2) % 4;
+    let map = random_map(&mut rng, map_kind);
+    let text = config(&render_table(&table, &mut rng), Some(roa), &map);
+    FuCase { table, map, roa, text, family: "random", map_kind }
+}
+
+/// spacing of a follow-up mini-history: 0..=2 = ticks between the key that completes the combination and
+/// the follow-up event (everything before it 2 ticks apart); 3 = burst, no tick between any two events
+const FU_SPACINGS: usize = 4;
+
+struct FuMini {
+    entry: usize,
+    /// follow-up event: press (true) / release (false) of the key with this universe index (output space)
+    press: bool,
+    key: usize,
+    spacing: usize,
+    h: Vec<Ev>,
+}
+
+/// For one table entry: its full combination typed modifiers first, then ONE follow-up event right
+/// behind the key that completes it (press of every key outside the combination, release of every key
+/// of the combination), each at every spacing; 3 ticks later everything is released with 0/1/2-tick gaps.
+fn fu_minis(c: &FuCase) -> Vec<FuMini> {
+    let cs = codes();
+    let inv = inverse(&c.map);
+    let mut v = vec![];
+    for (ei, o) in c.table.iter().enumerate() {
+        let mut mods: Vec<usize> = (0..8).filter(|i| o.in_mods & (1 << i) != 0).map(|i| i + 5).collect();
+        if !mods.is_empty() {
+            let n = ei % mods.len();
+            mods.rotate_left(n);
+        }
+        let combo: Mask = mods_to_mask(o.in_mods) | (1 << o.in_key);
+        for f in 0..NK {
+            let press = combo & (1 << f) == 0;
+            for spacing in 0..FU_SPACINGS {
+                let burst = spacing == 3;
+                let mut h = vec![];
+                let mut down: Vec<usize> = vec![];
+                for m in &mods {
+                    h.push(Ev::P(cs[inv[*m]]));
+                    down.push(*m);
+                    if !burst {
+                        h.push(Ev::T(2));
+                    }
+                }
+                h.push(Ev::P(cs[inv[o.in_key]]));
+                down.push(o.in_key);
+                if !burst && spacing > 0 {
+                    h.push(Ev::T(spacing as u32));
+                }
+                if press {
+                    h.push(Ev::P(cs[inv[f]]));
+                    if f % 2 == 0 {
+                        down.insert(0, f); // released first
+                    } else {
+                        down.push(f); // released last
+                    }
+                } else {
+                    h.push(Ev::R(cs[inv[f]]));
+                    down.retain(|k| *k != f);
+                }
+                if !burst {
+                    h.push(Ev::T(3));
+                }
+                if (f + ei) % 3 == 0 {
+                    down.reverse();
+                }
+                for (j, k) in down.iter().enumerate() {
+                    h.push(Ev::R(cs[inv[*k]]));
+                    let g = if burst { 0 } else { ((spacing + j) % 3) as u32 };
+                    if g > 0 {
+                        h.push(Ev::T(g));
+                    }
+                }
+                push_final_drain(&mut h);
+                v.push(FuMini { entry: ei, press, key: f, spacing, h });
+            }
+        }
+    }
+    v
+}
+
+fn run_followup(out: &mut CaseOut, ctx: &Ctx, r: u64) {
+    let c = fu_case(ctx, r);
+    out.inc("followup_cases");
+    out.tag(format!("fu:{}:roa={}:map={}:entries={}", c.family, c.roa, c.map_kind, c.table.len()));
+    let minis = fu_minis(&c);
+    let mut reference: Option<RunObs> = None;
+    let mut ref_for = (usize::MAX, usize::MAX);
+    let n_minis = minis.len();
+    for (mi, m) in minis.iter().enumerate() {
+        out.inc("followup_mini_histories");
+        out.inc(match m.spacing {
+            0 => "followup_event_0_ticks_behind_completing_key",
+            1 => "followup_event_1_tick_behind_completing_key",
+            2 => "followup_event_2_ticks_behind_completing_key",
+            _ => "followup_whole_history_without_ticks",
+        });
+        out.inc(match (m.press, is_mod(m.key)) {
+            (true, false) => "followup_press_of_outside_nonmodifier",
+            (true, true) => "followup_press_of_outside_modifier",
+            (false, false) => "followup_release_of_overridden_key",
+            (false, true) => "followup_release_of_combination_modifier",
+        });
+        if !c.roa {
+            out.inc("followup_mini_histories_release_on_activation_no");
+        }
+        let before = out.violations.len();
+        let want_sample = r % 100 == 3 && mi == n_minis / 2;
+        let Some(obs) = judge_history(out, &c.table, &c.map, c.roa, &c.text, &m.h, want_sample) else { return };
+        if ref_for != (m.entry, m.key) {
+            reference = reference_run(&c.text, &m.h);
+            ref_for = (m.entry, m.key);
+        }
+        if let Some(rf) = &reference {
+            compare_spacing(out, &c.text, &m.h, c.roa, &obs, rf);
+        }
+        for v in out.violations[before..].iter_mut() {
+            if let Some(o) = v.witness.as_object_mut() {
+                o.insert("followup".into(), json!({"entry_index": m.entry, "event": format!("{} of {}", if m.press { "press" } else { "release" }, key_name(m.key)), "spacing": m.spacing}));
+            }
+        }
     }
 }
 
@@ -922,28 +1293,35 @@ impl Check for C13Check {
         "C13"
     }
     fn n_cases(&self, ctx: &Ctx) -> u64 {
-        n_pure(ctx) + n_pipe(ctx)
+        n_pure(ctx) + n_pipe(ctx) + n_fu(ctx)
     }
     fn describe(&self, ctx: &Ctx, idx: u64) -> Value {
         if idx < n_pure(ctx) {
             let (t, mut rng) = table_for(ctx, idx);
             json!({"part": "pure", "config": config(&render_table(&t, &mut rng), None, &identity_map())})
-        } else {
+        } else if idx < n_pure(ctx) + n_pipe(ctx) {
             let pc = pipe_case(ctx, idx - n_pure(ctx));
             json!({"part": "pipeline", "case": idx - n_pure(ctx), "family": pc.family, "config": pc.text, "history": render_hist(&pc.h)})
+        } else {
+            let r = idx - n_pure(ctx) - n_pipe(ctx);
+            let c = fu_case(ctx, r);
+            let minis = fu_minis(&c);
+            json!({"part": "followup", "case": r, "family": c.family, "config": c.text, "mini_histories": minis.len(), "first_mini_histories": minis.iter().take(8).map(|m| render_hist(&m.h)).collect::<Vec<_>>()})
         }
     }
     fn run_case(&self, ctx: &Ctx, idx: u64) -> CaseOut {
         let mut out = CaseOut::new();
         if idx < n_pure(ctx) {
             run_pure(&mut out, ctx, idx);
-        } else {
+        } else if idx < n_pure(ctx) + n_pipe(ctx) {
             run_pipeline(&mut out, ctx, idx - n_pure(ctx));
+        } else {
+            run_followup(&mut out, ctx, idx - n_pure(ctx) - n_pipe(ctx));
         }
         out
     }
     fn rule(&self) -> String {
-        "Pure part: one override table per case, written as configuration text and parsed by the real parser (256 seed-independent tables: every subset of the 8 modifiers as the input modifiers of an override of `a`, with a shorter combination listed before and after it; then random tables of 1-7 entries over non-modifiers {a,b,1,9} with random modifier subsets on both sides, half of them extending/shrinking another entry's combination). For each table, exhaustively every ordered list of distinct keys of length <= 3 (quick) / <= 4 (thorough) over {a,b,1,9,x} + the 8 modifiers, plus targeted lists (each entry's full combination in several orders, with an unrelated key, an extra modifier, a second non-modifier), is passed to Overrides::override_keys and the resulting key set compared with the set-based specification. Pipeline part: override-release-on-activation alternating yes/no; the base layer maps the 13 physical keys to a permutation of the same 13 key codes (identity / non-modifiers permuted / non-modifiers and modifiers each permuted / 1-3 arbitrary transpositions, a quarter of the random cases each) and the overrides are defined on the output codes; 80 seed-independent cases enumerate every pair (output key a,b,1,9 that has an override) x (physical key a,b,1,9,x that outputs it, the layer swaps the two; a second entry overrides the physical key's own code) x 4 combination shapes, each typing the full combination modifiers-first, sending OS repeats of the non-modifier's physical key while it is held, and releasing everything; the other cases use random tables with physically consistent random press/release/repeat histories over the physical keys that output the keys of the table, half of them preceded by one or two such targeted combinations; after every tick the set of keys the OS holds must equal the specification applied to the keys kanata holds in that tick (Layout::keycodes, plus the key just removed by release-on-activation), kanata's held keys must be consistent with the physical keys, and at the end nothing may be held; the histories also contain OS auto-repeat events for held keys: every repeat output must be for a key that is down at the OS, a repeat of the physical key whose output is the non-modifier of an active override must be forwarded for one of the override's output keys, never for the replaced key, and a repeat of a physical key whose output kanata holds and no active override replaces must be forwarded as that key (or as a down output of another entry for the same key), never dropped and never as an unrelated key; repeat violations on a physical key that outputs a different code get the suffix :remapped-key. Non-trivial = table accepted; distinct = distinct table shape (modifier counts per entry) / pipeline class.".into()
+        "Pure part: one override table per case, written as configuration text and parsed by the real parser (256 seed-independent tables: every subset of the 8 modifiers as the input modifiers of an override of `a`, with a shorter combination listed before and after it; then random tables of 1-7 entries over non-modifiers {a,b,1,9} with random modifier subsets on both sides, half of them extending/shrinking another entry's combination). For each table, exhaustively every ordered list of distinct keys of length <= 3 (quick) / <= 4 (thorough) over {a,b,1,9,x} + the 8 modifiers, plus targeted lists (each entry's full combination in several orders, with an unrelated key, an extra modifier, a second non-modifier), is passed to Overrides::override_keys and the resulting key set compared with the set-based specification. Pipeline part: override-release-on-activation alternating yes/no; the base layer maps the 13 physical keys to a permutation of the same 13 key codes (identity / non-modifiers permuted / non-modifiers and modifiers each permuted / 1-3 arbitrary transpositions, a quarter of the random cases each) and the overrides are defined on the output codes; 80 seed-independent cases enumerate every pair (output key a,b,1,9 that has an override) x (physical key a,b,1,9,x that outputs it, the layer swaps the two; a second entry overrides the physical key's own code) x 4 combination shapes, each typing the full combination modifiers-first, sending OS repeats of the non-modifier's physical key while it is held, and releasing everything; the other cases use random tables with physically consistent random press/release/repeat histories over the physical keys that output the keys of the table, half of them preceded by one or two such targeted combinations; after every tick the set of keys the OS holds must equal the specification applied to the keys kanata holds in that tick (Layout::keycodes, plus the key just removed by release-on-activation), kanata's held keys must be consistent with the physical keys, and at the end nothing may be held; the histories also contain OS auto-repeat events for held keys: every repeat output must be for a key that is down at the OS, a repeat of the physical key whose output is the non-modifier of an active override must be forwarded for one of the override's output keys, never for the replaced key, and a repeat of a physical key whose output kanata holds and no active override replaces must be forwarded as that key (or as a down output of another entry for the same key), never dropped and never as an unrelated key; repeat violations on a physical key that outputs a different code get the suffix :remapped-key. End of the combination (release-on-activation off): after a tick in which override_keys replaced a non-modifier, the next press or release kanata processes (any key, any distance, also the tick directly after the activating tick) must leave that non-modifier no longer held by kanata - together with the per-tick clause this means the override outputs are released, still-held modifiers are back and the newly pressed key is sent with the modifiers that are really held; a tick that consumes no event must change neither kanata's held keys nor the OS set. Spacing independence: every pipeline history is re-run with the same press/release events 4 ticks apart (repeats dropped); at every settled point (a tick that consumed nothing while nothing was queued) the OS must hold the same keys as the widely spaced run after the same number of events, and with release-on-activation off the complete sequence of presses/releases sent to the OS must be identical. Follow-up part: 160 seed-independent cases ((output key a,b,1,9) x (physical key that outputs it) x 4 combination shapes incl. one whose output modifier differs from the held one x release-on-activation no/yes) + 400 (quick) / 4000 (thorough) random tables with random layer permutations; per case EXHAUSTIVELY every table entry x every follow-up event (press of each universe key outside the entry's combination, release of each key of the combination; 13 per entry) x 4 spacings (follow-up event 0, 1, 2 ticks behind the key that completes the combination with the modifiers 2 ticks apart; whole mini-history without any tick); 3 ticks later everything is released with 0/1/2-tick gaps; every mini-history is judged by all pipeline clauses and compared with its widely spaced run. Non-trivial = table accepted; distinct = distinct table shape (modifier counts per entry) / pipeline class.".into()
     }
     fn assumptions(&self) -> Vec<String> {
         vec![
@@ -954,6 +1332,8 @@ impl Check for C13Check {
             "pipeline: kanata deliberately drops an overridden non-modifier's key state at the next action/release (eager erasure); such keys are exempt from the 'physically held keys stay held' check from their first override until their release".into(),
             "layer mapping: only injective mappings (permutations of the universe, plain key actions) are generated, so every output key has exactly one physical key; two physical keys that output the same code, and richer actions (chords, tap-hold, ...) as override inputs, are not judged here (C14 covers repeat forwarding for action forms)".into(),
             "repeats are judged for completeness only from a settled state: no queued event, the previous tick's OS set equal to the specification (so ticks showing the known order deviation are excluded), no key removed by release-on-activation in that tick. kanata's repeat table lists a key's own code and the non-modifier outputs of every override of that code and takes the first that is down, so a repeat forwarded as a down output of another entry for the same key is tolerated (counted as pipeline_repeats_forwarded_as_other_entry_output)".into(),
+            "end of the combination: neither the statement nor the guide says when kanata stops holding an overridden key that is still physically down. Judged is what the repository's own scripted scenarios (override_release_mod_change_key: `d:lsft d:a d:c` gives `up:Kb9 dn:C`, `d:lsft d:1 d:c` gives `up:LCtrl up:Kb2 dn:LShift dn:C`, release of the modifier gives `up:LShift up:Kb9`) and the doc comment of mark_overridden_nonmodkeys_for_eager_erasure fix: the next press or release processed after a tick in which the override was active ends it. Which non-modifiers were replaced in a tick is read from the public function (OverrideStates::removed_oscs after override_keys on the keys kanata holds, in state order), and only in ticks whose OS set equals the specification, so overrides left unapplied by the known order deviation mark nothing. Only judged with override-release-on-activation no (with yes the key is dropped in the activating tick, which the per-tick clause already covers). The guide's sentence that releasing the modifier first 'sends a' describes older behaviour and is not judged either way beyond OS set = specification of the keys kanata holds".into(),
+            "spacing independence assumes a configuration of plain keys and overrides only (nothing time-dependent), which is all this check generates; kanata consumes one queued event per tick, so the same events in the same order must lead through the same states. With override-release-on-activation yes the output is released one tick after activation and can share a tick with the next event, which legitimately merges/reorders outputs (a modifier that would come back for one tick never does), so there only the held sets at settled points are compared, not the output sequence. OS repeat inputs are left out of the widely spaced run and repeat outputs out of the compared sequence".into(),
             "known deviation (DESIGN §6 #9): the implementation is order-sensitive; a deviation is classified as that class exactly when a non-modifier precedes a modifier in the list and the same keys listed modifiers-first give a specified result".into(),
         ]
     }
@@ -988,6 +1368,26 @@ impl Check for C13Check {
             ("pipeline_repeats_of_key_not_overridden", 2_000),
             ("pipeline_repeats_of_key_not_overridden_remapped_key", 1_000),
             ("pipeline_repeats_forwarded_for_the_key_itself", 2_000),
+            ("pipeline_idle_ticks_unchanged", 500_000),
+            ("pipeline_next_event_after_override_is_press", 10_000),
+            ("pipeline_next_event_after_override_is_release", 5_000),
+            ("pipeline_next_event_consumed_one_tick_after_activation", 10_000),
+            ("pipeline_override_ended_by_next_press", 10_000),
+            ("pipeline_override_ended_by_next_release", 5_000),
+            ("spacing_histories_compared_with_widely_spaced_run", 50_000),
+            ("spacing_settled_points_compared", 200_000),
+            ("spacing_output_sequences_compared", 20_000),
+            ("followup_cases", N_FU_SYS + ctx.tier.sel(400, 4_000)),
+            ("followup_mini_histories", 50_000),
+            ("followup_mini_histories_release_on_activation_no", 20_000),
+            ("followup_event_0_ticks_behind_completing_key", 10_000),
+            ("followup_event_1_tick_behind_completing_key", 10_000),
+            ("followup_event_2_ticks_behind_completing_key", 10_000),
+            ("followup_whole_history_without_ticks", 10_000),
+            ("followup_press_of_outside_nonmodifier", 10_000),
+            ("followup_press_of_outside_modifier", 10_000),
+            ("followup_release_of_combination_modifier", 5_000),
+            ("followup_release_of_overridden_key", 3_000),
         ]
     }
     fn exhaustive(&self, _ctx: &Ctx) -> bool {
